@@ -68,17 +68,18 @@ type Tx struct {
 
 // Cfg is the initial world of a run (Production.tla InitWorld + constants).
 type Cfg struct {
-	N     int    `json:"n"`    // universe of masters 1..N
-	Auth  []int  `json:"auth"` // genesis authorities, must be 1..k
-	Bal   []int  `json:"bal"`  // units per endorsor of master i+1
-	Thr   int    `json:"thr"`  // units
-	Mbp   int    `json:"mbp"`
-	Hay   bool   `json:"hay"`   // HAYABUSA (and every earlier fork) from genesis, genesis stakers = Queue
-	TP    uint32 `json:"tp"`    // its transition period in blocks (0: PoS active from genesis)
-	Queue []int  `json:"queue"` // must equal Auth when Hay
-	E     uint32 `json:"E"`
-	Per   uint32 `json:"Per"`
-	Gal   string `json:"gal"` // "0" (from genesis), "never", "3" ...
+	N      int    `json:"n"`    // universe of masters 1..N
+	Auth   []int  `json:"auth"` // genesis authorities, must be 1..k
+	Bal    []int  `json:"bal"`  // units per endorsor of master i+1
+	Thr    int    `json:"thr"`  // units
+	Mbp    int    `json:"mbp"`
+	Hay    bool   `json:"hay"`   // HAYABUSA (and every earlier fork) from genesis, genesis stakers = Queue
+	TP     uint32 `json:"tp"`    // its transition period in blocks (0: PoS active from genesis)
+	Queue  []int  `json:"queue"` // must equal Auth when Hay
+	E      uint32 `json:"E"`
+	Per    uint32 `json:"Per"`
+	Gal    string `json:"gal"`    // "0" (from genesis), "never", "3" ...
+	Seeder uint32 `json:"seeder"` // thor.SeederInterval (0: default)
 }
 
 // Step of a TLC behaviour.
@@ -160,6 +161,7 @@ type blk struct {
 	conflicts uint32
 	par       string
 	okTxs     []thor.Bytes32 // ids of non-reverted txs on the chain ending here (dependency candidates)
+	lateDone  bool
 	world     *world
 }
 
@@ -216,7 +218,7 @@ func newRun(idx int, cfg Cfg, seed int64, res *results, shapes map[string]bool) 
 		fmt.Sscan(cfg.Gal, &g)
 		o.Galactica = g
 	}
-	p := sim.Prod{Listed: len(cfg.Auth), Periods: [3]uint32{cfg.Per, cfg.Per, cfg.Per}, Cooldown: cfg.Per, TP: cfg.TP}
+	p := sim.Prod{Listed: len(cfg.Auth), Periods: [3]uint32{cfg.Per, cfg.Per, cfg.Per}, Cooldown: cfg.Per, TP: cfg.TP, Seeder: cfg.Seeder}
 	r := &run{idx: idx, cfg: cfg, rng: rand.New(rand.NewSource(seed)), blocks: map[string]*blk{}, inst: map[string]*consensus.Consensus{},
 		res: res, shapes: shapes, pos: cfg.Hay, bank: 8, user: 9}
 	if cfg.Hay {
@@ -240,7 +242,7 @@ func newRun(idx int, cfg Cfg, seed int64, res *results, shapes map[string]bool) 
 	r.blocks["b0"] = b0
 	r.order = append(r.order, "b0")
 	r.nextID = 1
-	for _, n := range []string{"w", "warm", "sib", "conf", "twice", "alt0", "alt1"} {
+	for _, n := range []string{"w", "warm", "sib", "conf", "twice", "alt0", "alt1", "late"} {
 		r.inst[n] = consensus.New(g.Repo, g.Stater, r.net.FC)
 	}
 	bal := cfg.Bal
@@ -406,13 +408,48 @@ func (r *run) view(b *blk) (ids []int, act []bool, pos bool, props []scheduler.P
 	return ids, act, false, nil, 0
 }
 
+// seedOf: the seed of the slot order for the children of a stored block, from a fresh Seeder.  It is defined for every
+// stored block (the seed block lies on the block's own chain); an error is a finding of its own.
+func (r *run) seedOf(h *block.Header) []byte {
+	seed, err := scheduler.NewSeeder(r.net.God.Repo).Generate(h.ID())
+	if err != nil {
+		r.violate("seeder:generate-failed", fmt.Sprintf("#%d", h.Number()), "seeder", fmt.Sprintf("Seeder.Generate fails for a stored parent at height %d: %v", h.Number(), err))
+		return nil
+	}
+	return seed
+}
+
+// validatorSched: the scheduler a validator builds for signer p on top of parent (real activity flags, real seed).
+func (r *run) validatorSched(parent *blk, p int) scheduler.Scheduler {
+	h := parent.b.Header()
+	seed := r.seedOf(h)
+	ids, act, pos, props, total := r.view(parent)
+	var s scheduler.Scheduler
+	var err error
+	if pos {
+		for i := range props {
+			props[i].Active = act[i]
+		}
+		s, err = scheduler.NewPoSScheduler(r.masterAddr(p), props, h.Number(), h.Timestamp(), seed, total)
+	} else {
+		var ps []scheduler.Proposer
+		for i, id := range ids {
+			ps = append(ps, scheduler.Proposer{Address: r.masterAddr(id), Active: act[i]})
+		}
+		s, err = scheduler.NewPoASchedulerV2(r.masterAddr(p), ps, h.Number(), h.Timestamp(), seed)
+	}
+	if err != nil {
+		return nil
+	}
+	return s
+}
+
 // cord: the slot order of the addresses for the children of b, read off the real schedulers with everybody active
 // (PoA v2: all masters of the universe, the order is a per-address hash; PoS: the leader group the children will see,
 // followed by the rest).  This is the oracle `cord` of Production.tla.
 func (r *run) cord(b *blk) []int {
 	h := b.b.Header()
-	seed, err := scheduler.NewSeeder(r.net.God.Repo).Generate(h.ID())
-	must(err)
+	seed := r.seedOf(h)
 	T := thor.BlockInterval()
 	ids, _, pos, props, total := r.view(b)
 	var out []int
@@ -679,6 +716,16 @@ func (r *run) pack(name, par string, p, now int, txs []Tx) *blk {
 		r.violate("packer:gas", name, "packer", fmt.Sprintf("packer's receipts sum to %d gas, header says %d", gas, h.GasUsed()))
 	}
 	slot := int((h.Timestamp() - ph.Timestamp()) / T)
+	// "Schedule returns the EARLIEST owned slot >= now": the validator-side question IsTheTime, asked for every slot from
+	// the one the packer was asked at up to the one it took, must say no before and yes at the slot taken
+	if vs := r.validatorSched(parent, p); vs != nil {
+		for k := now; k < slot; k++ {
+			if vs.IsTheTime(ph.Timestamp() + uint64(k)*T) {
+				r.violate("packer:not-earliest-slot", name, "packer", fmt.Sprintf("asked at slot %d the packer took slot %d although the proposer owns slot %d (IsTheTime says yes)", now, slot, k))
+				break
+			}
+		}
+	}
 	pids, pact, isPos, _, _ := r.view(parent)
 	inactive := false
 	for i, id := range pids {
@@ -853,6 +900,20 @@ func (r *run) deliver(i int, node, hist string, b *blk) {
 		}
 		r.violate(sig, b.name, node, "packer block rejected by a full node ("+hist+"): "+e.Error())
 	}
+}
+
+// late: a fresh validator looks at the block again long after it was made - other branches have grown, the best block
+// has moved on; the verdict must not care
+func (r *run) late(b *blk) {
+	if b.par == "" || b.lateDone {
+		return
+	}
+	if _, ok := r.blocks[b.par]; !ok {
+		return
+	}
+	b.lateDone = true
+	r.restartInst("late")
+	r.process("late", "late-cold", r.inst["late"], b, b.conflicts)
 }
 
 func (r *run) restartInst(node string) {
@@ -1196,6 +1257,17 @@ func directed() []Behaviour {
 		chain(fmt.Sprintf("pos-delayed-sibling-%d", late), pos, Step{}, Step{}, Step{Now: late}, Step{Par: 2}, Step{Par: 4}, Step{Par: 3},
 			Step{Par: 5, Now: late}, Step{Par: 5, Now: 2}, Step{Par: 5}, Step{Par: 9})
 	}
+	// the seed of the slot order is the beta of a block on the PARENT's chain, whatever the best chain is: two branches that
+	// split below the seed block, the shorter one first best, then overtaken; every block is looked at again at the end
+	for _, c := range []Cfg{pos, {N: 4, Auth: []int{1, 2, 3}, Bal: []int{2, 1, 1, 1}, Thr: 1, Mbp: 4, E: 3, Per: 3, Gal: "never"}} {
+		c.Seeder = 2
+		name := "poa"
+		if c.Hay {
+			name = "pos"
+		}
+		chain(name+"-seed-deep-fork", c, Step{}, Step{}, Step{}, Step{Now: 2}, Step{}, Step{}, Step{Par: 2, Now: 2}, Step{}, Step{}, Step{Now: 2}, Step{},
+			Step{}, Step{Par: 6}, Step{Par: 12}, Step{Par: 13})
+	}
 	posT := pos
 	posT.TP, posT.E, posT.Per = 2, 2, 2
 	chain("pos-transition-housekeeping", posT, Step{Txs: []Tx{{"mbp", 0, 4}}}, Step{}, Step{Txs: []Tx{{"sadd", 4, 0}}}, Step{Txs: []Tx{{"sinc", 1, 0}}},
@@ -1262,6 +1334,9 @@ func replay(in string, seed int64, res *results, shapes map[string]bool) [][]tra
 				r.restartInst("w")
 			}
 		}
+		for _, name := range r.order {
+			r.late(r.blocks[name])
+		}
 		res.RunInfo = append(res.RunInfo, runInfo{Run: i, Name: bh.Name, Events: len(r.evs), Blocks: len(r.order) - 1})
 		all = append(all, r.evs)
 		r.net.Close()
@@ -1288,20 +1363,39 @@ func randomCfg(profile string, rng *rand.Rand) Cfg {
 }
 
 func random(profile string, runs, blocks int, seed int64, res *results, shapes map[string]bool) [][]trace.Ev {
+	seeders := []uint32{0, 3, 4, 2}
 	var all [][]trace.Ev
 	profs := strings.Split(profile, ",")
 	for i := 0; i < runs; i++ {
 		rs := seed*7919 + int64(i)
 		rng := rand.New(rand.NewSource(rs))
 		prof := profs[i%len(profs)]
-		r := newRun(i, randomCfg(prof, rng), rs, res, shapes)
+		cfg := randomCfg(prof, rng)
+		cfg.Seeder = seeders[rng.Intn(len(seeders))]
+		r := newRun(i, cfg, rs, res, shapes)
+		alt, altAt := "", 0 // head of a competing branch and the position of its last extension
 		for len(r.order)-1 < blocks {
-			// parent: mostly the newest block, sometimes one of the last few (fork)
+			// parent: mostly the newest block, sometimes one of the last few (fork); a competing branch is kept alive for a
+			// while so that forks get deeper than the seed block of the slot order
 			k := len(r.order) - 1
-			if r.rng.Intn(5) == 0 && k > 0 {
+			onAlt := false
+			if alt != "" && len(r.order)-altAt > 8 {
+				alt = ""
+			}
+			switch x := r.rng.Intn(20); {
+			case alt != "" && x < 7:
+				onAlt = true
+			case x < 10 && k > 0:
 				k -= 1 + r.rng.Intn(min(3, k))
+				if alt == "" {
+					onAlt = true // this fork becomes the competing branch
+					alt = r.order[k]
+				}
 			}
 			parent := r.blocks[r.order[k]]
+			if onAlt {
+				parent = r.blocks[alt]
+			}
 			ids, _, _, _, _ := r.view(parent)
 			if len(ids) == 0 {
 				harnessError("run %d: nobody can propose on %s", i, parent.name)
@@ -1323,6 +1417,9 @@ func random(profile string, runs, blocks int, seed int64, res *results, shapes m
 			if b == nil {
 				continue
 			}
+			if onAlt {
+				alt, altAt = b.name, len(r.order)
+			}
 			var sib *blk
 			if r.rng.Intn(3) == 0 {
 				sib = r.sibling(b, 2)
@@ -1330,6 +1427,11 @@ func random(profile string, runs, blocks int, seed int64, res *results, shapes m
 			r.battery(b, sib, r.rng.Intn(4) == 0)
 			// the trace specification may forget blocks nobody will build on or validate again
 			for len(r.order)-r.pruned > 14 {
+				for _, name := range r.order[r.pruned:] {
+					if c := r.blocks[name]; c.par == r.order[r.pruned] {
+						r.late(c)
+					}
+				}
 				r.evs = append(r.evs, trace.Ev{"e": "Prune", "b": r.order[r.pruned]})
 				r.pruned++
 			}
